@@ -107,7 +107,7 @@ impl OptVal {
 }
 
 /// (name in erbium.conf(5), option code, kind) for options with an unambiguous RFC 2132 encoding.
-pub const APPLY_OPTS: [(&str, u8, u8); 20] = [
+pub const APPLY_OPTS: [(&str, u8, u8); 22] = [
     ("netmask", 1, 0),
     ("time-offset", 2, 7),
     ("routers", 3, 1),
@@ -128,6 +128,10 @@ pub const APPLY_OPTS: [(&str, u8, u8); 20] = [
     ("tz-name", 101, 2),
     ("captive-portal", 114, 2),
     ("host-name", 12, 2),
+    // options the server itself is responsible for: a policy naming them must not be able to take
+    // them out of a reply or point them elsewhere (C10: lease time, C13: server identifier)
+    ("lease-time", 51, 6),
+    ("server-id", 54, 0),
 ];
 
 pub const MATCH_OPTS: [(&str, u8); 3] = [("host-name", 12), ("class-id", 60), ("user-class", 77)];
@@ -220,7 +224,7 @@ fn optval_strategy(kind: u8) -> BoxedStrategy<OptVal> {
 }
 
 fn apply_opt_strategy() -> impl Strategy<Value = (u8, Option<OptVal>)> {
-    prop_oneof![3 => 0usize..7, 2 => 0usize..APPLY_OPTS.len()].prop_flat_map(|i| {
+    prop_oneof![6 => 0usize..7, 4 => 0usize..APPLY_OPTS.len(), 1 => 20usize..22].prop_flat_map(|i| {
         let kind = APPLY_OPTS[i].2;
         (Just(i as u8), proptest::option::weighted(0.8, optval_strategy(kind)))
     })
@@ -355,6 +359,17 @@ pub fn policy_case_strategy(prof: TreeProfile) -> impl Strategy<Value = PolicyCa
                 proptest::option::weighted(0.9, prop_oneof![
                     2 => Just((1..=120u8).collect::<Vec<u8>>()),
                     2 => proptest::collection::vec(prop_oneof![Just(1u8), Just(3), Just(6), Just(15), Just(26), Just(28), Just(42), Just(114), Just(119), Just(12), 1u8..120], 0..=12),
+                    // any code may be asked for; codes 128 away from a configured option are the
+                    // ones a bit set narrower than 256 would confuse
+                    2 => proptest::collection::vec(prop_oneof![
+                        4 => any::<u16>().prop_map(|i| APPLY_OPTS[pick_idx(i, APPLY_OPTS.len())].1.wrapping_add(128)),
+                        2 => any::<u16>().prop_map(|i| APPLY_OPTS[pick_idx(i, APPLY_OPTS.len())].1),
+                        1 => Just(119u8.wrapping_add(128)),
+                        2 => 1u8..=254,
+                        1 => Just(51u8),
+                        1 => Just(54u8),
+                    ], 0..=10),
+                    1 => Just((1..=254u8).collect::<Vec<u8>>()),
                 ]),
                 proptest::option::weighted(0.6, prop_oneof![Just(1500u16), Just(9000), any::<u16>()]),
                 proptest::option::weighted(0.6, any::<u32>().prop_map(Ipv4Addr::from)),
@@ -433,6 +448,23 @@ fn policy_yaml(p: &PolSpec, style: u8) -> Yaml {
     if !p.children.is_empty() {
         e.push(("policies".into(), ylist(p.children.iter().map(|c| policy_yaml(c, style)).collect())));
     }
+    // the order of keys in a mapping carries no meaning; vary it (bits 2..3 of `style`)
+    match (style >> 2) & 3 {
+        1 => e.reverse(),
+        2 => {
+            if let Some(i) = e.iter().position(|(k, _)| k == "policies") {
+                let x = e.remove(i);
+                e.insert(0, x);
+            }
+        }
+        3 => {
+            let n = e.len();
+            if n > 1 {
+                e.rotate_left(n / 2);
+            }
+        }
+        _ => {}
+    }
     let mut h = yaml_rust::yaml::Hash::new();
     for (k, v) in e {
         h.insert(Yaml::String(k), v);
@@ -467,6 +499,9 @@ pub fn render(c: &PolicyCase) -> Option<String> {
         top.push(("captive-portal", ystr(u)));
     }
     top.push(("dhcp-policies", ylist(c.policies.iter().map(|p| policy_yaml(p, c.style)).collect())));
+    if (c.style >> 4) & 1 == 1 {
+        top.reverse();
+    }
     let tree = ymap(top);
     let text = emit(&tree);
     if parse_yaml(&text).as_ref() != Some(&tree) {
@@ -1015,6 +1050,137 @@ impl Prop for C11Options {
     }
 }
 
+// ---------------------------------------------------------------------------------------------
+// C10 / C13 under generated policies: what the server itself owes every reply cannot be taken
+// away or redirected by configuration
+
+/// `which` = "C10" (lease time present, bounded, equal to the record) or "C13" (server
+/// identifier present and naming this server, on every reply).
+pub struct ReplyInvariants {
+    pub which: &'static str,
+}
+
+impl Prop for ReplyInvariants {
+    type Case = PolicyCase;
+    fn sub(&self) -> &'static str {
+        "policy-options"
+    }
+    fn check(&self, c: &PolicyCase) -> Outcome {
+        let mut out = Outcome::default();
+        let text = match render(c) {
+            Some(t) => t,
+            None => {
+                out.excluded.push("yaml-emitter-did-not-round-trip");
+                return out;
+            }
+        };
+        let conf = match load(&text) {
+            Err(f) => {
+                out.fail(format!("load:{}", f.sig), f.detail);
+                return out;
+            }
+            Ok(Err(_)) => {
+                out.class("rejected-at-load");
+                return out;
+            }
+            Ok(Ok(c)) => c,
+        };
+        let pl: BTreeSet<u8> = c.param_list.clone().unwrap_or_default().into_iter().collect();
+        let mut ch = vec![];
+        chain(&c.policies, c, &mut ch);
+        let touches = |code: u8| ch.iter().flat_map(|p| p.apply_opts.iter()).any(|(o, _)| APPLY_OPTS[*o as usize].1 == code) && pl.contains(&code);
+        if touches(51) {
+            out.class("policy-names-lease-time-and-client-asks-for-it");
+        }
+        if touches(54) {
+            out.class("policy-names-server-id-and-client-asks-for-it");
+        }
+        out.nontrivial = if self.which == "C10" { touches(51) } else { touches(54) };
+        let mut pool = dhcp::pool::Pool::new_in_memory().expect("pool");
+        let mut ids: std::collections::HashSet<Ipv4Addr> = Default::default();
+        let mut offered: Option<Ipv4Addr> = None;
+        for step in 0..2 {
+            let mut req = build_request(c, if step == 0 { wire::DISCOVER } else { wire::REQUEST }, None, offered);
+            if step == 1 {
+                req.pkt.options.other.insert(dhcppkt::OPTION_SERVERID, c.serverip.octets().to_vec());
+            }
+            let before = wall_now_s();
+            let reply = match dhcp::handle_pkt(&mut pool, &req, ids.clone(), &conf) {
+                Ok(r) => r,
+                Err(_) => {
+                    out.class("no-reply");
+                    return out;
+                }
+            };
+            let kind = if step == 0 { "offer" } else { "ack" };
+            let got = crate::hist::options_of(&reply.options);
+            if self.which == "C13" {
+                match got.get(&wire::OPT_SERVER_ID) {
+                    Some(v) if v.as_slice() == c.serverip.octets() => {}
+                    other => {
+                        out.fail(
+                            format!("C13:reply-server-id:{}", kind),
+                            format!("the {} carries server identifier {:?}; this server is {}", kind, other, c.serverip),
+                        );
+                        return out;
+                    }
+                }
+                let mt = got.get(&wire::OPT_MSG_TYPE).and_then(|v| v.first().copied());
+                if mt != Some(if step == 0 { wire::OFFER } else { wire::ACK }) {
+                    out.fail(format!("C13:reply-message-type:{}", kind), format!("{:?}", mt));
+                    return out;
+                }
+            } else {
+                let l = match got.get(&wire::OPT_LEASE_TIME) {
+                    Some(v) if v.len() == 4 => u32::from_be_bytes([v[0], v[1], v[2], v[3]]),
+                    other => {
+                        out.fail(format!("C10:no-lease-time:{}", kind), format!("option 51 of the {}: {:?}", kind, other));
+                        return out;
+                    }
+                };
+                if !(300..=86400).contains(&l) {
+                    out.fail(format!("C10:lease-time-out-of-bounds:{}", kind), format!("{} s", l));
+                    return out;
+                }
+                let rows = crate::hist::rows_of(&mut pool);
+                match rows.iter().find(|r| r.ip == reply.yiaddr) {
+                    Some(r) => {
+                        let dur = r.expire as i64 - r.start as i64;
+                        if dur != l as i64 || (r.expire as i64) < before + l as i64 - 1 {
+                            out.fail(
+                                format!("C10:record-differs-from-lease-time:{}", kind),
+                                format!("the {} says {} s, the record runs {} s (start {}, expiry {}, now {})", kind, l, dur, r.start, r.expire, before),
+                            );
+                            return out;
+                        }
+                    }
+                    None => {
+                        out.fail(format!("C10:no-record:{}", kind), format!("no row for {}", reply.yiaddr));
+                        return out;
+                    }
+                }
+            }
+            ids.insert(c.serverip);
+            offered = Some(reply.yiaddr);
+        }
+        out
+    }
+}
+
+fn wall_now_s() -> i64 {
+    crate::hist::wall_now() as i64
+}
+
+pub fn run_reply_invariants(ctx: &Ctx, which: &'static str) {
+    let prof = TreeProfile {
+        likely_match: true,
+        addresses: true,
+        options: true,
+        match_opts: true,
+    };
+    run_prop(ctx, &ReplyInvariants { which }, move || policy_case_strategy(prof), ctx.tier.pick(20_000, 600_000), workers());
+}
+
 pub fn run_c02(ctx: &Ctx) {
     let prof = TreeProfile {
         likely_match: false,
@@ -1038,6 +1204,8 @@ pub fn run_c11(ctx: &Ctx) {
 pub fn replay(id: &str, sub: &str, case: &serde_json::Value) -> Option<Result<Outcome, String>> {
     match (id, sub) {
         ("C02", "address-set") => Some(replay_prop(&C02Set, case)),
+        ("C10", "policy-options") => Some(replay_prop(&ReplyInvariants { which: "C10" }, case)),
+        ("C13", "policy-options") => Some(replay_prop(&ReplyInvariants { which: "C13" }, case)),
         ("C11", "options") => Some(replay_prop(&C11Options, case)),
         _ => None,
     }
